@@ -23,6 +23,9 @@
 (*     b0    first line of the body (for, while, with; if: the true arm);   *)
 (*     body  the lines of a `for` / `with` body                             *)
 (*     cc    <<>> or <<b>>: the condition is reported to be the constant b  *)
+(*     sc    the line of the innermost enclosing `with` ("0": none);        *)
+(*     wt,wc for a `with`: its `as` target and the concrete context the    *)
+(*           context-use analysis resolved the block to (<<>>: no claim)   *)
 (*     frame TRUE when every call in the statement goes to a function the  *)
 (*           purity analysis calls pure (and it is no store xs[i] = e):    *)
 (*           such a statement changes only the names it binds              *)
@@ -41,7 +44,13 @@
 (* checked (C13: type shape, static size, value class, constant; C14:      *)
 (* AbsFormat!MemF of the inferred bound), the definition sites are updated *)
 (* and the reads of the statement about to run are checked against the     *)
-(* reaching definitions.  A fact that fails is printed with its clause;    *)
+(* reaching definitions.  The variable __ctx__ of the compiled code is the  *)
+(* active rounding context: the specification keeps the stack of contexts  *)
+(* of the enclosing `with` blocks and checks the discipline of C04 on the   *)
+(* real run (a block's context is active in all of it, the `as` target is  *)
+(* that context, the enclosing context is back after the block, the entry  *)
+(* context is the declared one, else the caller's, else binary64).          *)
+(* A fact that fails is printed with its clause;    *)
 (* the run goes on so that one failure does not hide the rest.             *)
 (***************************************************************************)
 EXTENDS AbsFormat, Json, IOUtils
@@ -49,8 +58,8 @@ EXTENDS AbsFormat, Json, IOUtils
 Progs == ndJsonDeserialize(IOEnv.PROG_FILE)
 Runs  == ndJsonDeserialize(IOEnv.TRACE_FILE)
 
-VARIABLES r, i, env, dsite, bad
-vars == <<r, i, env, dsite, bad>>
+VARIABLES r, i, env, dsite, cstk, bad
+vars == <<r, i, env, dsite, cstk, bad>>
 
 SeqSet(s) == {s[j] : j \in 1..Len(s)}
 IsNumV(v) == v.k \in {"fin", "inf", "nan"}
@@ -93,6 +102,11 @@ MemDV(v, F) ==
     ELSE IF IsNumV(v) THEN MemF(v, F)
     ELSE TRUE
 
+CtxOf(e) == IF "__ctx__" \in DOMAIN e THEN e["__ctx__"] ELSE [k |-> "none"]
+\* the context stack cut back to the block whose `with` is at line sc ("0": the function's own scope)
+RECURSIVE Prefix(_, _)
+Prefix(stk, sc) == IF Len(stk) <= 1 \/ stk[Len(stk)].line = sc THEN stk ELSE Prefix(SubSeq(stk, 1, Len(stk) - 1), sc)
+
 Say(clause, what) == PrintT(<<"MM", Run.tid, clause, what>>)
 
 \* every failing fact about one definition (printed); TRUE always, the count is kept in `bad`
@@ -134,16 +148,19 @@ CondFails(lp, ln) ==
 
 Report(S) == \A p \in S : Say(p[1], p[2])
 
-Init == r = 1 /\ i = 0 /\ env = <<>> /\ dsite = <<>> /\ bad = 0
+Init == r = 1 /\ i = 0 /\ env = <<>> /\ dsite = <<>> /\ cstk = <<>> /\ bad = 0
 
 \* first event of a run: the parameters
 First ==
     /\ r <= Len(Runs) /\ i = 0
     /\ LET e == Ev(1).v
            ds == [n \in {P.params[j].n : j \in 1..Len(P.params)} |-> "0"]
-           F == DefFails(P.params, e) \cup UseFails(Ev(1).l, ds, "")
+           c0 == IF Len(Run.cx0) = 1 /\ CtxOf(e) # Run.cx0[1]
+                 THEN {<<"active-context-is-not-that-of-the-enclosing-scope", "on entry">>} ELSE {}
+           F == DefFails(P.params, e) \cup UseFails(Ev(1).l, ds, "") \cup c0
        IN  /\ Report(F)
            /\ env' = e /\ dsite' = ds /\ bad' = bad + Cardinality(F)
+           /\ cstk' = <<[line |-> "0", cx |-> CtxOf(e)]>>
     /\ i' = 1 /\ r' = r
 
 Step ==
@@ -165,9 +182,23 @@ Step ==
            fr == IF Known(lp) /\ LineRec(lp).frame
                  THEN {<<"function-reported-pure-writes-a-list-of-its-caller", n>> : n \in touched \ {defs[j].n : j \in 1..Len(defs)}}
                  ELSE {}
-           F == DefFails(defs, e) \cup CondFails(lp, ln) \cup UseFails(ln, ds, lp) \cup al \cup fr
+           \* context discipline: entering the block of a `with` pushes the context now active; anywhere else the stack is cut
+           \* back to the block the next statement sits in, and (header lines apart: a header is evaluated under REAL and its line
+           \* is visited again on the way out) the active context is that block's
+           enter == Known(lp) /\ LineRec(lp).k = "with" /\ ln = ToString(LineRec(lp).b0)
+           sn == IF Known(ln) THEN LineRec(ln).sc ELSE "0"
+           cut == Prefix(cstk, sn)
+           stk == IF enter THEN Append(cstk, [line |-> lp, cx |-> CtxOf(e)]) ELSE cut
+           cxf == IF enter
+                  THEN (IF Len(LineRec(lp).wt) = 1 /\ LineRec(lp).wt[1] \in DOMAIN e /\ e[LineRec(lp).wt[1]] # CtxOf(e)
+                        THEN {<<"with-target-is-not-the-active-context", LineRec(lp).wt[1]>>} ELSE {})
+                       \cup (IF Len(LineRec(lp).wc) = 1 /\ LineRec(lp).wc[1] # CtxOf(e)
+                             THEN {<<"context-reported-for-a-block-is-not-the-active-one", "with at line " \o lp>>} ELSE {})
+                  ELSE IF Known(ln) /\ LineRec(ln).k # "with" /\ Len(cut) >= 1 /\ cut[Len(cut)].cx # CtxOf(e)
+                       THEN {<<"active-context-is-not-that-of-the-enclosing-scope", "line " \o ln>>} ELSE {}
+           F == DefFails(defs, e) \cup CondFails(lp, ln) \cup UseFails(ln, ds, lp) \cup al \cup fr \cup cxf
        IN  /\ Report(F)
-           /\ env' = e /\ dsite' = ds /\ bad' = bad + Cardinality(F)
+           /\ env' = e /\ dsite' = ds /\ bad' = bad + Cardinality(F) /\ cstk' = stk
     /\ i' = i + 1 /\ r' = r
 
 \* the run is over: what it returned, then on to the next run
@@ -182,7 +213,7 @@ Finish ==
            G == IF Len(P.pure) = 1 /\ P.pure[1] /\ Run.mut
                 THEN {<<"function-reported-pure-writes-a-list-of-its-caller", P.name>>} ELSE {}
        IN  /\ Report(F \cup G) /\ bad' = bad + Cardinality(F \cup G)
-    /\ r' = r + 1 /\ i' = 0 /\ env' = <<>> /\ dsite' = <<>>
+    /\ r' = r + 1 /\ i' = 0 /\ env' = <<>> /\ dsite' = <<>> /\ cstk' = <<>>
 
 Next == First \/ Step \/ Finish
 Spec == Init /\ [][Next]_vars
